@@ -11,6 +11,9 @@ import (
 	"testing"
 
 	"github.com/prometheus/prometheus/model/labels"
+
+	"github.com/thanos-io/thanos/pkg/rules/rulespb"
+	"github.com/thanos-io/thanos/pkg/store/labelpb"
 )
 
 func govcOracle(sets [][]*labels.Matcher, nonTemplated map[string]string) bool {
@@ -80,6 +83,21 @@ func TestGovcReplay(t *testing.T) {
 				}
 				check([][]*labels.Matcher{sets[i], sets[j]}, lc)
 			}
+		}
+	}
+	// removeReplicaLabels on a real rule: none of the replica labels may survive, whichever order the
+	// set is walked in (repeated, because Go randomises map iteration)
+	for rep := 0; rep < 20; rep++ {
+		r := &rulespb.Rule{Result: &rulespb.Rule_Alert{Alert: &rulespb.Alert{Name: "x", Labels: labelpb.ZLabelSet{Labels: labelpb.ZLabelsFromPromLabels(labels.FromStrings("a", "1", "replica", "r0", "rule_replica", "q1", "zone", "z"))}}}}
+		removeReplicaLabels(r, map[string]struct{}{"replica": {}, "rule_replica": {}, "zone": {}})
+		got := r.GetLabels()
+		for _, n := range []string{"replica", "rule_replica", "zone"} {
+			if got.Has(n) && len(msgs) < 4 {
+				msgs = append(msgs, fmt.Sprintf("rule {a, replica, rule_replica, zone} with replica labels {replica, rule_replica, zone}: label %q is still there after removeReplicaLabels (labels now %v)", n, got))
+			}
+		}
+		if !got.Has("a") && len(msgs) < 4 {
+			msgs = append(msgs, "removeReplicaLabels removed the non-replica label a")
 		}
 	}
 	if len(msgs) > 0 {
